@@ -535,7 +535,7 @@ PTC_SWAP = "((search == __CPROVER_loop_entry(search) && found == __CPROVER_loop_
            "(search == __CPROVER_loop_entry(found) && found == __CPROVER_loop_entry(search)))"
 PTC_LOC = ["i", "j", "loc", "loopCount", "currentSearchNum", "numSearchHexes", "numFoundHexes", "search", "found", "bboxes", "out",
            "numHexagons", "ring", "edgeHexError", "hexCenter", "temp", "searchHex", "hex"]
-J(name="c17.polygonToCells", props=["C17"], harness="c17.c", entry="h_polygonToCells", alloc=True, timeout=3000, tier="thorough",
+J(name="c17.polygonToCells", props=["C17"], harness="c17.c", entry="h_polygonToCells", alloc=True, timeout=3000, tier="never",  # out of memory / > 50 min: not registered
   bound_note="size estimate (length of the out/search/found arrays) restricted to 12..16 cells; loops closed by loop contracts (no iteration bound)",
   enforce=["polygonToCells/polygonToCells_c17"], checks=["--no-standard-checks"],
   replace=["validatePolygonFlags", "maxPolygonToCellsSize/maxPolygonToCellsSize_frame", "_getEdgeHexagons/_getEdgeHexagons_frame",
@@ -671,9 +671,16 @@ for nmax, tier in ((2, "never"), (3, "never")):   # does not finish within 30 mi
 J(name="c05.gridDiskDistancesUnsafe", props=["C05", "C12"], harness="c12.c", entry="h_gridDiskDistancesUnsafe", enforce=["gridDiskDistancesUnsafe"],
   replace=["h3NeighborRotations/h3NeighborRotations_frame", "isPentagon"], checks=["--no-standard-checks", "--signed-overflow-check"], timeout=1500,
   bound_note="k <= 30000 (covers the index range up to and beyond 2^31); arithmetic-overflow and error-code obligations only",
-  exclude=[(r"gridDiskDistancesUnsafe\.assigns\.\d+ .*(out|distances)\[", "write bound idx < maxGridDiskSize(k): a quadratic fact, not decided")],
+  exclude=[(r"gridDiskDistancesUnsafe\.assigns\.\d+ .*(out|distances)\[", "write bound idx < maxGridDiskSize(k): a quadratic fact, not decided"),
+           (r"__CPROVER_contracts_write_set_check_assignment\.assertion\.\d+ ptr NULL or writable up to size",
+            "the same undecided write bound, as seen by DFCC's write-set check")],
   loops=[dict(fn="gridDiskDistancesUnsafe", loop=0, locals=["idx", "ring", "direction", "i", "rotations", "origin", "k", "out", "distances"],
               assigns="idx, ring, direction, i, rotations, origin, __CPROVER_object_whole(out), __CPROVER_object_whole(distances)",
               inv="1 <= ring && ring <= k + 1 && 0 <= direction && direction < 6 && 0 <= i && i < ring && k <= 30000 && "
                   "(signed long)idx == 1 + 3 * (signed long)ring * ((signed long)ring - 1) + (signed long)direction * ring + i")],
   replay=dict(fn="gridDiskDistancesUnsafe_big", args=[]))
+
+J(name="c12.uncompactCellsSize.unbounded", props=["C12"], harness="c03.c", entry="h_uncompactCellsSize", enforce=["uncompactCellsSize/uncompactCellsSize_any"],
+  replace=["cellToChildrenSize"], checks=NO_CONV, replay=dict(fn="uncompactCellsSize_big", args=[]),
+  loops=[dict(fn="uncompactCellsSize", loop=0, locals=["i", "numOut", "numCompacted"], assigns="i, numOut",
+              inv="0 <= i && (i <= numCompacted || numCompacted < 0)")])
